@@ -19,9 +19,13 @@ import (
 	"golang.org/x/tools/go/packages"
 )
 
+// property attribution: the whole arithmetic serves C20; the shifts also carry the k-mer words of C19
+var lwC20 = []string{"C20"}
+var lwShiftProps = []string{"C20", "C19"}
+
 func init() {
 	register(&Rule{
-		ID: "LW", Props: []string{"C20"}, Min: 30,
+		ID: "LW", Props: []string{"C20", "C19"}, Min: 30,
 		Doc: `limb-weight typing: in the straight-line methods of obifp.Uint64/Uint128/Uint256 every word has a weight (field w_i: weight i; math/bits result conventions as
 oracle). LW1 operands of an Add64/Sub64 have the same weight and a word of weight k is only stored in limb k; LW2 a carry into weight k<N is consumed by the addition at
 weight k (never dropped, never fed back to the weight that produced it); LW3 every value of weight >= N (final carry, high product words) and every cross product
@@ -480,12 +484,12 @@ func hasLoop(n ast.Node) bool {
 func runLW(c *Ctx, s *Sink) {
 	p := c.Pkg("pkg/obifp")
 	if p == nil {
-		s.Undecided(nil, "pkg/obifp", 0, "package not loaded")
+		s.Undecided(lwC20, "pkg/obifp", 0, "package not loaded")
 		return
 	}
 	ts := lwTypes(p)
 	if len(ts) != 3 {
-		s.Undecided(nil, "pkg/obifp", 0, "Uint64/Uint128/Uint256 struct types not found")
+		s.Undecided(lwC20, "pkg/obifp", 0, "Uint64/Uint128/Uint256 struct types not found")
 		return
 	}
 	// wrapper summaries first: Uint64.Add64/Sub64/Mul64 return math/bits results; check result naming
@@ -493,13 +497,13 @@ func runLW(c *Ctx, s *Sink) {
 		fd, _ := c.FindFunc("pkg/obifp", "(Uint64)."+wn)
 		key := "pkg/obifp.(Uint64)." + wn + ":result-order"
 		if fd == nil {
-			s.Undecided(nil, key, 0, "wrapper not found")
+			s.Undecided(lwC20, key, 0, "wrapper not found")
 			continue
 		}
 		// shape: single return of a bits.* call, or return lo, hi of a previous call
 		swapped, direct, ok := wrapperShape(p, fd)
 		if !ok {
-			s.Undecided(nil, key, fd.Pos(), "wrapper body is not a recognised shape")
+			s.Undecided(lwC20, key, fd.Pos(), "wrapper body is not a recognised shape")
 			continue
 		}
 		names := resultNames(fd)
@@ -508,9 +512,9 @@ func runLW(c *Ctx, s *Sink) {
 		firstIsValue := (wn != "Mul64") != swapped
 		_ = direct
 		if len(names) == 2 && names[0] == "value" && !firstIsValue {
-			s.Fail(nil, key, fd.Pos(), "LW1: bits.Mul64 returns (high, low) but the wrapper returns them as (value, carry): callers store the word of weight 1 as the value and take the low word for the overflow carry")
+			s.Fail(lwC20, key, fd.Pos(), "LW1: bits.Mul64 returns (high, low) but the wrapper returns them as (value, carry): callers store the word of weight 1 as the value and take the low word for the overflow carry")
 		} else {
-			s.Pass(nil, key, fd.Pos(), "results are returned as (value of the operand weight, carry/high word)")
+			s.Pass(lwC20, key, fd.Pos(), "results are returned as (value of the operand weight, carry/high word)")
 		}
 	}
 	arith := map[string]bool{"Add": true, "Add64": true, "Sub": true, "Mul": true, "Mul64": true}
@@ -588,7 +592,7 @@ func wrapperShape(p *packages.Package, fd *ast.FuncDecl) (swapped, direct, ok bo
 
 func lwArith(c *Ctx, s *Sink, p *packages.Package, ts map[string]*lwType, self *lwType, fd *ast.FuncDecl, key string) {
 	if hasLoop(fd.Body) {
-		s.Undecided(nil, key, fd.Pos(), "arithmetic method contains a loop: limb-weight typing covers straight-line code only")
+		s.Undecided(lwC20, key, fd.Pos(), "arithmetic method contains a loop: limb-weight typing covers straight-line code only")
 		return
 	}
 	a := newLW(c, p, ts, self, fd)
@@ -639,16 +643,16 @@ func lwArith(c *Ctx, s *Sink, p *packages.Package, ts map[string]*lwType, self *
 		}
 	}
 	if len(a.errs) > 0 {
-		s.Fail(nil, key, fd.Pos(), strings.Join(a.errs, " | "))
+		s.Fail(lwC20, key, fd.Pos(), strings.Join(a.errs, " | "))
 	} else {
-		s.Pass(nil, key, fd.Pos(), "operands, carries and stored limbs are weight-correct; overflow values reach the overflow test")
+		s.Pass(lwC20, key, fd.Pos(), "operands, carries and stored limbs are weight-correct; overflow values reach the overflow test")
 	}
 	if name == "Mul" {
 		k2 := key + ":cross-products"
 		if len(lw3Only) > 0 {
-			s.Fail(nil, k2, fd.Pos(), "LW3: the cross product(s) "+strings.Join(lw3Only, ", ")+" of weight >= "+fmt.Sprint(N)+" are neither computed nor excluded by the overflow test: an overflowing product is returned truncated without any signal")
+			s.Fail(lwC20, k2, fd.Pos(), "LW3: the cross product(s) "+strings.Join(lw3Only, ", ")+" of weight >= "+fmt.Sprint(N)+" are neither computed nor excluded by the overflow test: an overflowing product is returned truncated without any signal")
 		} else {
-			s.Pass(nil, k2, fd.Pos(), "every cross product of weight >= N is computed and tested, or its factors are tested")
+			s.Pass(lwC20, k2, fd.Pos(), "every cross product of weight >= N is computed and tested, or its factors are tested")
 		}
 	}
 }
@@ -690,9 +694,9 @@ func lwCmp(c *Ctx, s *Sink, p *packages.Package, ts map[string]*lwType, self *lw
 		}
 	}
 	if len(a.errs) > 0 {
-		s.Fail(nil, key, fd.Pos(), strings.Join(a.errs, " | "))
+		s.Fail(lwC20, key, fd.Pos(), strings.Join(a.errs, " | "))
 	} else {
-		s.Pass(nil, key, fd.Pos(), "limbs compared pairwise from the highest weight down, both directions")
+		s.Pass(lwC20, key, fd.Pos(), "limbs compared pairwise from the highest weight down, both directions")
 	}
 }
 
@@ -744,9 +748,9 @@ func lwPairing(c *Ctx, s *Sink, p *packages.Package, ts map[string]*lwType, self
 		return // returns the receiver itself or a scalar: nothing to pair
 	}
 	if len(a.errs) > 0 {
-		s.Fail(nil, key, fd.Pos(), strings.Join(a.errs, " | "))
+		s.Fail(lwC20, key, fd.Pos(), strings.Join(a.errs, " | "))
 	} else {
-		s.Pass(nil, key, fd.Pos(), "every result limb is built from operand limbs of the same weight; dropped limbs are tested")
+		s.Pass(lwC20, key, fd.Pos(), "every result limb is built from operand limbs of the same weight; dropped limbs are tested")
 	}
 }
 
@@ -756,7 +760,7 @@ func lwShift(c *Ctx, s *Sink, p *packages.Package, ts map[string]*lwType, self *
 		return
 	}
 	if hasLoop(fd.Body) {
-		s.Undecided(nil, key, fd.Pos(), "shift method contains a loop: dependence analysis covers branching straight-line code only")
+		s.Undecided(lwShiftProps, key, fd.Pos(), "shift method contains a loop: dependence analysis covers branching straight-line code only")
 		return
 	}
 	info := p.TypesInfo
@@ -983,7 +987,7 @@ func lwShift(c *Ctx, s *Sink, p *packages.Package, ts map[string]*lwType, self *
 	}
 	result := analyse(fd, id, 0)
 	if result == nil {
-		s.Undecided(nil, key, fd.Pos(), "no composite result found")
+		s.Undecided(lwShiftProps, key, fd.Pos(), "no composite result found")
 		return
 	}
 	var missing []string
@@ -999,9 +1003,9 @@ func lwShift(c *Ctx, s *Sink, p *packages.Package, ts map[string]*lwType, self *
 		}
 	}
 	if len(missing) > 0 {
-		s.Fail(nil, key, fd.Pos(), "LW5: "+strings.Join(missing, "; ")+": shifts by more than one limb lose those bits")
+		s.Fail(lwShiftProps, key, fd.Pos(), "LW5: "+strings.Join(missing, "; ")+": shifts by more than one limb lose those bits")
 	} else {
-		s.Pass(nil, key, fd.Pos(), "every result limb may receive bits of exactly the source limbs a shift can move there")
+		s.Pass(lwShiftProps, key, fd.Pos(), "every result limb may receive bits of exactly the source limbs a shift can move there")
 	}
 }
 
